@@ -286,6 +286,34 @@ func extractC08b(c *ctxT) {
 	} else {
 		sb.WriteString("def hookOutgoingRefund_usesKeeperConvertCoin : Bool := false\n")
 	}
+	// what `executeClaim` converts through: ExecuteClaim dispatches a parked MsgSendToFxClaim to SendToFxExecuted, which (target
+	// erc20) and BridgeCallEvm (every token) credit ERC-20 through BaseCoinToEvm = the erc20 keeper's ConvertCoin (keeper level)
+	bodyHas := func(pkg, fn string, subs ...string) bool {
+		fd := c.findFunc(pkg, "Keeper", fn)
+		if fd == nil || fd.Body == nil {
+			return false
+		}
+		src := c.src(fd.Body)
+		for _, sub := range subs {
+			if !strings.Contains(src, sub) {
+				return false
+			}
+		}
+		return true
+	}
+	b2s := func(b bool) string {
+		if b {
+			return "true"
+		}
+		return "false"
+	}
+	sb.WriteString("/-- `ExecuteClaim` hands a parked `MsgSendToFxClaim` to `SendToFxExecuted` and a parked `MsgBridgeCallClaim` to `BridgeCallHandler` -/\n")
+	sb.WriteString("def executeClaim_dispatchesDeposits : Bool := " + b2s(bodyHas("x/crosschain/keeper", "ExecuteClaim", "k.SendToFxExecuted(ctx, claim)", "k.BridgeCallHandler(ctx, claim)")) + "\n")
+	sb.WriteString("/-- `SendToFxExecuted` with target `erc20` credits the receiver through `BaseCoinToEvm`; so does `BridgeCallEvm` for every token -/\n")
+	sb.WriteString("def sendToFxExecuted_erc20Target_usesBaseCoinToEvm : Bool := " + b2s(bodyHas("x/crosschain/keeper", "SendToFxExecuted", "fxtypes.ERC20Target", "k.BaseCoinToEvm(ctx, baseCoin")) + "\n")
+	sb.WriteString("def bridgeCallEvm_usesBaseCoinToEvm : Bool := " + b2s(bodyHas("x/crosschain/keeper", "BridgeCallEvm", "k.BaseCoinToEvm(ctx, coin")) + "\n")
+	sb.WriteString("/-- `BaseCoinToEvm` is the erc20 keeper's `ConvertCoin` (keeper-level ERC20Mint / ERC20Transfer: a nested EVM execution) -/\n")
+	sb.WriteString("def baseCoinToEvm_usesKeeperConvertCoin : Bool := " + b2s(bodyHas("x/crosschain/keeper", "BaseCoinToEvm", "k.erc20Keeper.ConvertCoin(ctx")) + "\n")
 	facts["precompileTokenConversions"] = pl
 
 	sb.WriteString("\nend FxVerif.Gen.C08b\n")
